@@ -205,7 +205,7 @@ def check_spec(spec, labels, order='canonical'):
             if 'MON' in decl:
                 nmarkets += 1
                 code = c.get('moncode', 'MON')
-                issuer = 'CB' if c['gov'] == 'TRECB' else 'GOV'
+                issuer = 'CB' if c['gov'] in ('TRECB', 'GOLDCB') else 'GOV'
                 holders = []
                 for o in zone:
                     od = [d[0] for d in topo.declarations(o)]
@@ -222,7 +222,7 @@ def check_spec(spec, labels, order='canonical'):
                 if dem_m != 0:
                     turnover.add((cc, code))
                 for a, b in holders:
-                    weighted = b in ('HH', 'CAP') and (by[a]['dep'] or by[a]['gov'] == 'TRECB')
+                    weighted = b in ('HH', 'CAP') and (by[a]['dep'] or by[a]['gov'] in ('TRECB', 'GOLDCB'))
                     if b == 'TRE' and code == 'MON':
                         continue      # the treasury declares DEM_MON = 0.0 itself
                     if not weighted:
@@ -233,11 +233,11 @@ def check_spec(spec, labels, order='canonical'):
                 if code not in decl:
                     continue
                 nmarkets += 1
-                issuer = 'TRE' if c['gov'] == 'TRECB' else 'GOV'
+                issuer = 'TRE' if c['gov'] in ('TRECB', 'GOLDCB') else 'GOV'
                 holders = []
                 for o in zone:
                     od = [d[0] for d in topo.declarations(o)]
-                    if o['dep'] or o['gov'] == 'TRECB':
+                    if o['dep'] or o['gov'] in ('TRECB', 'GOLDCB'):
                         for sid in ('HH', 'CAP'):
                             if sid in od and (code == 'DEP' or o.get('dep2')):
                                 holders.append((o['code'], sid))
@@ -251,7 +251,7 @@ def check_spec(spec, labels, order='canonical'):
                 if dem_m != 0:
                     turnover.add((cc, code))
             # ---------------- portfolio allocation
-            if c['dep'] or c['gov'] == 'TRECB':
+            if c['dep'] or c['gov'] in ('TRECB', 'GOLDCB'):
                 for sid in ('HH', 'CAP'):
                     if sid not in decl:
                         continue
